@@ -519,3 +519,32 @@ Definition sample2volts (d : dict) : option (dec * Z * list conv) :=
   | Some (r, mi, S2Nidq g), Some (Some SNidq) => Some (r, mi, g)
   | _, _ => None
   end.
+
+(* ---------------------------------------------------------------- round 2 additions *)
+(* _get_neuropixel_major_version_from_meta: 1, 1, 1, 2, 2.4, "NPultra" *)
+Inductive major := MJ1 | MJ2 | MJ24 | MJultra.
+Definition major_of (v : vers) : major :=
+  match v with
+  | V3A | V3B1 | V3B2 => MJ1 | VNP21 => MJ2 | VNP24 => MJ24 | VNPultra => MJultra
+  end.
+Definition major_version (d : dict) : option major := option_map major_of (version d).
+
+(* exact sum of two decimals *)
+Definition dec_add (a b : dec) : dec :=
+  (fst a * pow10 (snd b) + fst b * pow10 (snd a), (snd a + snd b)%nat).
+(* _get_analog_sync_trace_indices_from_meta : (first index, count) of
+   range(int(sum(tr[0:2])), int(sum(tr[0:2])) + int(tr[-2])); [] for imec streams *)
+Definition analog_sync (d : dict) : option (Z * Z) :=
+  match get_type d with
+  | None => None
+  | Some (Some SNidq) =>
+      match lookup (lit "snsMnMaXaDw") d with
+      | Some (VList l) =>
+          match py_nth l (-2) with
+          | Some x => Some (dec_trunc (fold_left dec_add (firstn 2 l) (0, O)), Z.max 0 (dec_trunc x))
+          | None => None
+          end
+      | _ => None
+      end
+  | Some _ => Some (0, 0)
+  end.
